@@ -5,12 +5,24 @@ import re
 
 from harness import core, inputs, trees
 
-GEN = ['gen_escapes', 'gen_dispatch']
-THEOREMS = ['C19_render_order', 'C19_collect', 'C19_only_qualifying', 'C19_plain_text']
+GEN = ['gen_escapes', 'gen_dispatch', 'gen_regex', 'gen_config', 'gen_tables']
+THEOREMS = ['C19_render_order', 'C19_collect', 'C19_only_qualifying', 'C19_plain_text', 'C19_nesting', 'C19_nesting_hypotheses']
 TRUSTED = ['Model/Contrib.v: hand-written model of TocRenderer.render_heading / parse_rendered_heading (strip_tags re-implements '
            "re.sub(r'<.+?>', '', s); differentially tested)", 'the HTML model of C08', 'the outline generator (oracle side)']
-ASSUMPTIONS = ['nesting of the rebuilt list (TocRenderer.toc re-tokenizes indented list lines) is decided by the oracle on the implementation; '
-               'the theorem part covers collection, order, filtering and text (PARTIAL until the block model covers List.read)']
+ASSUMPTIONS = ['nesting of the rebuilt list: theorem C19_nesting over ALL heading lists that form an outline with plain titles (computable hypotheses outline_okb, '
+               'titles_okb: no inline trigger character or tab, first character not a block-marker character, no trailing white space), about the model of '
+               'block_token.tokenize on the lines TocRenderer.toc writes; the model is tied to the code by comparing the token tree of r.toc with the model\'s on every '
+               'generated document (X-toc(tree)); titles outside titles_okb are decided by the oracle only',
+               'the theorem part also covers collection, order, filtering and text']
+
+TRIGGERS = set('\\*_[]!`~<\n$&{|')
+MARKER_FIRST = set(' \t\n\r\x0b\x0c#*+-0123456789<>[_`~')
+
+
+def title_ok(w):
+    """titles_okb of Proofs/TocNest.v (ASCII reading)"""
+    return bool(w) and not (set(w) & TRIGGERS) and '\t' not in w and w[0] not in MARKER_FIRST and not w[-1].isspace()
+
 
 WORDS = ['alpha', 'beta', 'gamma', 'delta', 'omega', 'intro', 'usage', 'notes', 'api', 'faq', 'skipme', 'skip this', 'x1', 'Chapter', 'two words']
 
@@ -89,6 +101,9 @@ def worker(args):
                 toc = r.toc
                 res['toc_type'] = type(toc).__name__
                 res['toc'] = flatten_toc(toc) if type(toc).__name__ == 'List' else None
+                # the token tree itself, for the correspondence with the model (inline parsing consults the document's
+                # link definitions: compared only when there are none)
+                res['toc_tree'] = trees.dump(toc) if not doc.footnotes else None
             except IndexError:
                 res['toc_type'] = 'IndexError'
                 res['toc'] = None
@@ -122,6 +137,7 @@ def run(ctx, only=None):
     with mp.Pool(core.NPROC) as pool:
         res = pool.map(worker, jobs + extra, chunksize=100)
     reqs, meta = [], []
+    toc_trees = {}
     nontriv = set()
     dist = {}
     for ((heads, sq), text, depth, omit, fname, dq), r in zip(jobs + extra, res):
@@ -132,6 +148,8 @@ def run(ctx, only=None):
         if fname == 'none':
             reqs.append([19, depth, omit, dq, False, r['tree']])
             meta.append((text, depth, omit, r['headings']))
+            if r.get('toc_type') == 'List' and r.get('toc_tree') is not None:
+                toc_trees[(text, depth, omit)] = r['toc_tree']
         if not heads:
             continue
         dist[len(heads)] = dist.get(len(heads), 0) + 1
@@ -153,6 +171,8 @@ def run(ctx, only=None):
             continue
         levels = [lv for lv, _ in exp]
         base = min(levels)
+        if is_outline(levels, base) and all(title_ok(w) for _, w in exp):
+            ctx.count('cases_inside_the_nesting_theorem')
         if is_outline(levels, base):
             want = [(lv - base, w) for lv, w in exp]
             if r['toc'] != want:
@@ -168,6 +188,17 @@ def run(ctx, only=None):
             if mh != hs:
                 ctx.disagreements.append({'interface': 'X-toc', 'input': {'text': text, 'depth': depth, 'omit_title': omit},
                                           'model': mh, 'impl': hs})
+                continue
+            it = toc_trees.get((text, depth, omit))
+            if it is not None and hs:
+                ctx.count('toc_trees_compared')
+                try:
+                    mt = trees.undump(m[2][0]) if m[2] else None
+                except Exception as ex:
+                    mt = 'undecodable model reply: %r' % (ex,)
+                if mt != it:
+                    ctx.disagreements.append({'interface': 'X-toc(tree)', 'input': {'text': text, 'depth': depth, 'omit_title': omit},
+                                              'model': mt, 'impl': it})
     # strip_tags vs re.sub
     alpha = ['<', '>', 'a', '/', '\n', ' ', 'h1', '<em>', '</em>', '&lt;', '<>', '<\n>']
     strs = [''.join(rng.choice(alpha) for _ in range(rng.randint(0, 12))) for _ in range(3000 if ctx.quick() else 50000)]
